@@ -33,6 +33,8 @@ enum Call {
     Stall(usize),
     FeedSynAck(usize, bool),
     FeedPush(usize),
+    /// a keep-alive request from the peer: the receive task answers it with a HeartResponse through write_frame
+    FeedHeartReq,
     FeedFin(usize),
     FeedAlert,
     FeedEof,
@@ -77,6 +79,7 @@ fn parse_call(tok: &str) -> Call {
         ["STALL", k] => Call::Stall(k.parse().unwrap()),
         ["F", "sa", o, ok] => Call::FeedSynAck(o.parse().unwrap(), *ok == "1"),
         ["F", "psh", o] => Call::FeedPush(o.parse().unwrap()),
+        ["F", "hreq"] => Call::FeedHeartReq,
         ["F", "fin", o] => Call::FeedFin(o.parse().unwrap()),
         ["F", "alert"] => Call::FeedAlert,
         ["F", "eof"] => Call::FeedEof,
@@ -371,6 +374,10 @@ async fn run_case(start: bool, groups: Vec<Vec<Call>>, sched: Vec<usize>) -> Str
                         Call::FeedFin(o) => {
                             let sid = sh2.lock().unwrap().sids.get(o).copied().unwrap_or(0xFFFF_0000 + *o as u32);
                             let _ = ftx.send(REv::Data(frame_bytes(3, sid, b"")));
+                            break "ok";
+                        }
+                        Call::FeedHeartReq => {
+                            let _ = ftx.send(REv::Data(frame_bytes(8, 0, b"")));
                             break "ok";
                         }
                         Call::FeedAlert => {
